@@ -96,7 +96,13 @@ def generate(rng, n, tier, stats):
                 op = ['var_rename_axis', key, vd[i] if rng.random() < 0.5 else i, next(fresh)]
             elif k == 'set_dims':
                 if not dims: continue
-                op = ['set_dims', [next(fresh) for _ in dims] if rng.random() < 0.85 else [next(fresh)] * (len(dims) + 1)]
+                u = rng.random()
+                if u < 0.45: nm = [next(fresh) for _ in dims]
+                elif u < 0.7: nm = list(dims); rng.shuffle(nm)                      # a permutation of the current names
+                elif u < 0.85: nm = list(dims[1:]) + [next(fresh)]                   # a shift: every name but the last is a later axis's name
+                else: nm = [next(fresh)] * (len(dims) + 1)
+                stats['set_dims_form']['fresh' if u < 0.45 else 'permute' if u < 0.7 else 'shift' if u < 0.85 else 'wrong-length'] += 1
+                op = ['set_dims', nm]
             elif k == 'rename_axes':
                 if not dims: continue
                 m = rng.sample(dims, rng.randint(1, len(dims))); op = ['rename_axes', [[d, next(fresh)] for d in m]]
@@ -218,6 +224,20 @@ def oracle(c, res):
                 got = [hl(l) for l in o['axes'][o['dims'].index(d)]['labels']]
                 if sorted(map(str, got)) != sorted(map(str, want)) or len(set(got)) != len(got):
                     return 'constructed dataset: axis %s is %r, expected the union %r of the arrays\' labels' % (d, got, want)
+        # "a changed axis name is immediately visible from the dataset and from all variables"
+        if r['status'] is None and st['op'][0] == 'set_dims' and o['dims'] != list(st['op'][1]):
+            return 'after step %d: ds.dims = %r, but the dataset reports dims %r' % (k, st['op'][1], o['dims'])
+        if r['status'] is None and st['op'][0] == 'set_dims':
+            # variables keep their axes by position: their dims are the old ones mapped through the renaming
+            m = dict(zip(prev['dims'], st['op'][1]))
+            for v, pv in zip(o['vars'], prev['vars']):
+                want = [m.get(ax['name']) for ax in pv['arr']['axes']]
+                got = [ax['name'] for ax in v['arr']['axes']]
+                if v['key'] == pv['key'] and got != want:
+                    return 'after step %d: ds.dims = %r, but variable %r reports dims %r instead of %r' % (k, st['op'][1], v['key'], got, want)
+        if r['status'] is None and st['op'][0] == 'rename_axis':
+            ref = st['op'][1]; i = ref if isinstance(ref, int) else prev['dims'].index(ref)
+            if o['dims'][i] != st['op'][2]: return 'after step %d: axis %r renamed to %r, but the dataset reports dims %r' % (k, ref, st['op'][2], o['dims'])
         if st.get('intended_reject'):
             if r['status'] != 'ValueError': return 'step %d: assignment with disagreeing labels gave %r instead of ValueError' % (k, r['status'])
             if json.dumps(o, sort_keys=True, default=str) != json.dumps(prev, sort_keys=True, default=str):
